@@ -76,6 +76,18 @@ CLAIMS = {
         tech="static analysis: path-sensitive must-facts (balance verdict valid for the current span value) + call-argument/parameter agreement + exception-handler coverage",
         ref="DESIGN.md section 2/C11",
     ),
+    "C12": dict(
+        cat="other",
+        text="The loop invariants P1-P4 of Tokenizer.tokenize (concat(ALL)=text[:cursor]; previous token is ALL[-1] and ends at the "
+        "cursor; index list mirrors ALL; candidates sorted by start) are decided exactly on every acyclic path of the loop body over "
+        "symbolic positions with difference constraints; plus tail, no subclass overrides, extract_tokens yields only get_token "
+        "results, append_text split/re-join identity (structural), merge leaves offsets alone, from_match text/offset agreement and "
+        "Hyperscan slice rebasing. 'other' rather than proof: str.split/re-join identity and regex group-1 participation are assumed here.",
+        note="Assumes str.split(sep)+re-join identity, group 1 participates in every extractor match (C02), stable sorted(). Shipped "
+        "tokenizers only.",
+        tech="static analysis: path enumeration + symbolic cursor simulation with difference constraints; class-hierarchy override check",
+        ref="DESIGN.md section 2/C12",
+    ),
 }
 
 NA = {
